@@ -380,7 +380,10 @@ impl TransformerContext {
         }
 
         for (key, value) in &attrs {
-            el.set_default_attr(key, value);
+            // a value the element gives through a shorthand is given, not defaulted
+            if !el.has_shorthand_for(key) {
+                el.set_default_attr(key, value);
+            }
         }
         el.add_classes(&classes);
 
